@@ -13,7 +13,7 @@ From Coq Require Import ZArith List Bool Lia Permutation.
 Import ListNotations.
 Require Import Base.Py Model.ScorePrims Gen.Gen_scores Model.Score
   Proofs.C18_order Proofs.C18_prims Proofs.C18_stable_id3 Proofs.C18_stable_aac Proofs.C18_stable_ogg
-  Proofs.C18_stable_chunk Proofs.C18_stable_ape Proofs.C18_nameless_a Proofs.C18_nameless_b Proofs.C18_all.
+  Proofs.C18_stable_chunk Proofs.C18_stable_ape Proofs.C18_stable_sv46 Proofs.C18_nameless_a Proofs.C18_nameless_b Proofs.C18_all.
 Open Scope Z_scope.
 
 (* (a) the choice does not depend on the order in which candidate types are listed *)
@@ -181,6 +181,14 @@ Theorem C18_stable_WAVE : forall fname header trailer,
 Proof. intros fname header trailer Hn Hf. exact (proj1 (stable_WAVE fname header trailer Hn Hf)). Qed.
 Print Assumptions C18_stable_WAVE.
 
+(* Musepack SV4-SV6 streams have no magic: recognised by the extension when nothing else matches *)
+Theorem C18_stable_Musepack_sv46 : forall fname header trailer,
+  named_as C_Musepack fname -> no_known_magic header = true -> no_foreign_marker C_Musepack header = true ->
+  detect fname header trailer = Some (cls_name C_Musepack) /\
+  detect_easy fname header trailer = Some (easy_name C_Musepack).
+Proof. exact stable_Musepack_sv46. Qed.
+Print Assumptions C18_stable_Musepack_sv46.
+
 (* all of them at once: which types use the marker assumption is Model.Score.assumes_no_foreign_marker *)
 Theorem C18_stable : forall k fname header trailer,
   named_as k fname -> family k header trailer -> marker_assumption (assumes_no_foreign_marker k) k header ->
@@ -264,6 +272,15 @@ Proof.
   split; [eexists; split; [right; right; right; right; right; right; right; left; reflexivity | vm_compute; reflexivity]|]. split; [vm_compute; split; reflexivity|]. split; [vm_compute; reflexivity|]. split; [vm_compute; reflexivity|]. vm_compute; reflexivity.
 Qed.
 
+
+Example C18_ex_Musepack_sv4 :
+  named_as C_Musepack [83; 86; 52; 46; 77; 80; 67] /\ no_known_magic [193; 39; 32; 0; 1] = true /\
+  no_foreign_marker C_Musepack [193; 39; 32; 0; 1] = true /\
+  detect [83; 86; 52; 46; 77; 80; 67] [193; 39; 32; 0; 1] (Some [65; 80; 69; 84; 65; 71; 69; 88]) = Some (cls_name C_Musepack).
+Proof.
+  split; [eexists; split; [left; reflexivity | vm_compute; reflexivity]|].
+  split; [vm_compute; reflexivity|]. split; vm_compute; reflexivity.
+Qed.
 
 (* the hypotheses are needed (each witness is a concrete input on which the regenerated selection picks
    another type) *)
